@@ -527,8 +527,9 @@ def timer_summaries(ctx, rule="R06.2"):
     ok = v[0] == "v" and v[2] == "ControlMessage" and v[3].get("done", ("",))[0] == "call" and v[3]["done"][1].endswith("Clone::clone")
     ifs = thir.find(thir.root(f), "if")
     shape = False
-    if len(ifs) == 1 and pathx.desc(ifs[0]["c"]).endswith("self.is_restart"):
-        tv, evv = thir.expr_value(ifs[0]["t"]), thir.expr_value(ifs[0]["e"])
+    if len(ifs) == 1 and pathx.if_parts(ifs[0])[0] == "self.is_restart":
+        _, t_, e_ = pathx.if_parts(ifs[0])
+        tv, evv = thir.expr_value(t_), thir.expr_value(e_)
         shape = tv[0] == "v" and tv[2] == "ContinueTryGracefulRestart" and evv[0] == "v" and evv[2] == "Stop"
     ctx.require(ok and shape, rule, "timer-to-control",
                 "Timer::to_control yields ContinueTryGracefulRestart for a restart timer and Stop otherwise, carrying the timer's own flag",
@@ -931,6 +932,31 @@ def wake_protocol(ctx, rule="R07.4"):
     for pb in pend:
         ctx.require(cfg.must_pass(0, [pb], [rb for rb, _ in regs]), rule, "poll-pending-registered", "Pending is returned only after a waker was registered", p.loc(p.line),
                     fail="Flag::poll can return Pending without having registered a waker: the task is never woken")
+    # result table over the THIR paths: Ready <=> the last load of the flag on the path saw `true`
+    en = pathx.Enum()
+    bad = []
+    n_r = n_p = 0
+    for q in en.paths(thir.root(p)):
+        last = None
+        for e in q.ev:
+            if e[0] == "branch" and pathx.split_not(e[1])[0].startswith("Atomic::load(self.0.set"):
+                last = (e[2] != pathx.split_not(e[1])[1])
+        res = (q.val or "")
+        if q.out not in ("val", "ret"):
+            continue
+        if res.startswith("Ready"):
+            n_r += 1
+            if last is not True:
+                bad.append("Ready although the flag was last seen %s: %s" % ("unset" if last is False else "untested", pathx.show_events(q.ev)[-200:]))
+        elif res.startswith("Pending"):
+            n_p += 1
+            if last is not False:
+                bad.append("Pending although the flag was last seen %s: %s" % ("raised" if last else "untested", pathx.show_events(q.ev)[-200:]))
+        else:
+            bad.append("result %r is neither Ready nor Pending" % res)
+    ctx.require(not bad and n_r >= 2 and n_p >= 1, rule, "poll-result-table", "Flag::poll returns Ready exactly on paths whose last load saw the flag raised, Pending on the others "
+                "(%d Ready, %d Pending paths)" % (n_r, n_p), p.loc(p.line), detail="; ".join(bad)[:600],
+                fail="Flag::poll's result does not follow the flag: " + "; ".join(bad)[:300])
 
 
 def multi_waiter(ctx, rule="R07.5"):
@@ -1241,7 +1267,11 @@ def wrapper_table(ctx, rule):
                 leader = any(strip_generics(c).endswith("ProcessGroup::leader") for c, _ in thir.calls_in(m["arms"][i]["b"]))
                 ctx.require(leader, rule, "wrappers:group-leader", "a grouped command is made its group's leader", f.loc(m["arms"][i]["l"]))
     # reset_sigmask
-    ifs = [n for n in thir.find(root, "if") if pathx.desc(n["c"]).endswith("options.reset_sigmask")]
-    ok = len(ifs) == 1 and any("ResetSigmask" in thir.peel(n["fn"]).get("full", "") for c, n in thir.calls_in(ifs[0]["t"]))
+    ifs = [n for n in thir.find(root, "if") if pathx.if_parts(n)[0].endswith("options.reset_sigmask")]
+    ok = False
+    if len(ifs) == 1:
+        _, t_, e_ = pathx.if_parts(ifs[0])
+        ok = t_ is not None and any("ResetSigmask" in thir.peel(n["fn"]).get("full", "") for c, n in thir.calls_in(t_)) \
+            and not (e_ is not None and any("ResetSigmask" in thir.peel(n["fn"]).get("full", "") for c, n in thir.calls_in(e_)))
     ctx.require(ok, rule, "wrappers:reset-sigmask", "reset_sigmask => ResetSigmask wrapper", f.loc(f.line))
     return f
